@@ -27,6 +27,7 @@ type TOOpts struct {
 	Migrate  bool // after full storage a provider may start a migration
 	Term     bool // the owner may terminate the model at any time after the first completion
 	Super    bool // the first provider is a super node (first pick of every order, round-robin cursor)
+	Sponsor  int  // 1: the order under test is paid by another DID (P) than its owner; 2: same, and the owner DID has no payment address
 	Depth    int
 	Props    map[string]bool
 }
@@ -41,7 +42,13 @@ func TimeoutScenario(o TOOpts) *engine.Scenario {
 		sc.Cfg = world.Config{TwoValidators: true, VstorageThresh: 1_000_000}
 	}
 	sc.Roots = []engine.Root{{Name: "T0", Setup: func(w *world.World) []engine.SetupStep {
-		st := SetupBase(w, []int{world.O}, []int{world.G}, sps, 10_000_000)
+		owners := []int{world.O}
+		if o.Sponsor == 1 {
+			owners = []int{world.O, world.P}
+		} else if o.Sponsor == 2 {
+			owners = []int{world.P}
+		}
+		st := SetupBase(w, owners, []int{world.G}, sps, 10_000_000)
 		if o.Super {
 			v := sdk.ValAddress(w.A(world.V).Addr).String()
 			st = append(st, fixed(Tx("delegate", "delegate(S1,setup)", stakingDelegate(w, world.S1, v, 200_000_000))),
@@ -63,7 +70,9 @@ func TimeoutScenario(o TOOpts) *engine.Scenario {
 		a := w.App
 		h := ctx.BlockHeight()
 		// the order under test is created by the first explored step (so that the oracles see its creation)
-		if cnt := a.OrderKeeper.GetOrderCount(ctx); !o.Update && cnt == 1 {
+		if cnt := a.OrderKeeper.GetOrderCount(ctx); !o.Update && cnt == 1 && o.Sponsor > 0 {
+			return []engine.Op{Tx("store-sponsored", "store-sponsored(order-under-test)", StoreMsg(w, StoreP{Signer: world.O, Relayer: world.P, Gateway: world.G, DataId: world.Data1, CommitId: world.Data1, Size: o.Size, Replica: o.Replica, Duration: o.Duration, Timeout: o.Timeout, PayDid: w.A(world.P).Did}))}
+		} else if !o.Update && cnt == 1 {
 			return []engine.Op{Tx("store", "store(order-under-test)", StoreMsg(w, StoreP{Signer: world.O, Relayer: world.G, Gateway: world.G, DataId: world.Data1, CommitId: world.Data1, Size: o.Size, Replica: o.Replica, Duration: o.Duration, Timeout: o.Timeout}))}
 		} else if o.Update && cnt == 2 {
 			m, _ := a.ModelKeeper.GetMetadata(ctx, world.Data1)
@@ -119,7 +128,7 @@ func TimeoutScenario(o TOOpts) *engine.Scenario {
 }
 
 func toName(o TOOpts) string {
-	return fmt.Sprintf("to-n%d-r%d-t%d-d%d%s%s%s%s%s", o.NSP, o.Replica, o.Timeout, o.Duration, cmpb(o.Spare, "-spare", ""), cmpb(o.Update, "-upd", ""), cmpb(o.Cancel, "-cancel", ""), cmpb(o.Migrate, "-mig", ""), cmpb(o.Term, "-term", "")+cmpb(o.Super, "-super", ""))
+	return fmt.Sprintf("to-n%d-r%d-t%d-d%d%s%s%s%s%s", o.NSP, o.Replica, o.Timeout, o.Duration, cmpb(o.Spare, "-spare", ""), cmpb(o.Update, "-upd", ""), cmpb(o.Cancel, "-cancel", ""), cmpb(o.Migrate, "-mig", ""), cmpb(o.Term, "-term", "")+cmpb(o.Super, "-super", "")+cmpb(o.Sponsor == 1, "-sponsored", "")+cmpb(o.Sponsor == 2, "-sponsored-nopa", ""))
 }
 
 // TimeoutFamily returns the fault-sequence scenarios of a tier.
@@ -139,6 +148,8 @@ func TimeoutFamily(id, tier string, p map[string]bool) []*engine.Scenario {
 	add(TOOpts{NSP: 4, Replica: 2, Timeout: 100, Duration: 3600, Migrate: true, Depth: 8})
 	add(TOOpts{NSP: 3, Replica: 2, Timeout: 1200, Duration: 3600, Migrate: true, Depth: 6})
 	add(TOOpts{NSP: 2, Replica: 2, Timeout: 10, Duration: 3600, Super: true, Depth: 17})
+	add(TOOpts{NSP: 2, Replica: 1, Timeout: 10, Duration: 3600, Size: 1_000_000, Sponsor: 1, Cancel: true, Depth: 17})
+	add(TOOpts{NSP: 2, Replica: 1, Timeout: 10, Duration: 3600, Size: 1_000_000, Sponsor: 2, Cancel: true, Depth: 17})
 	if tier == "thorough" {
 		add(TOOpts{NSP: 4, Replica: 2, Timeout: 10, Duration: 3600, Depth: 17})
 		add(TOOpts{NSP: 3, Replica: 2, Timeout: 10, Duration: 3600, Spare: true, Cancel: true, Depth: 17})
